@@ -12,7 +12,10 @@
 3. monitors on the implementation: (a) the property itself -- the responses (status, ETag, Content-Type, body,
    listings) of run A and run B are identical; (b) C13_get stated on the server -- every GET / listing entry equals
    a cold derivation of the file's current bytes (so an externally replaced file is served with its new content
-   and ETag); (c) stale-entry probe at storage level, (d) the re-check under the cache lock.
+   and ETag); (c) stale-entry probe at storage level, (d) the re-check under the cache lock; (e) write faults (ENOSPC while
+   the entry is written) in histories and probes + the rule "entries are published by rename only" (audit hook);
+   (f) same size / same mtime_ns edits under hash keying; (g) the storage hook as external editor racing a GET.
+   Per pair: [encoding] stock in {utf-8, iso-8859-1, cp1252} with non-ASCII text.
 """
 import concurrent.futures
 import json
